@@ -94,7 +94,7 @@ def main():
         functions take their true values there, and the solver completes the digest e"""
         _, desc, info, kind = f
         klen = info['klen']
-        for attempt in range(3):
+        for attempt in range(6):
             dv = ck.rng.randrange(1, min(N - 2, 256 ** klen - 1) + 1)
             kvs = [ck.rng.randrange(1, N) for _ in range(maxc)]
             found = {}
@@ -124,7 +124,7 @@ def main():
                 if not bad:
                     return None
                 pins = [(d, dv)] + [(k, kv) for k, kv in zip(rd.v.ks, kvs)]
-                m = solve_with_truth(e, pins, extra)
+                m = solve_with_truth(e, pins, extra, timeout=20000 * (1 + attempt))
                 if m is not None:
                     found['e'] = mval(m, ev)
                     found['ks'] = kvs[:len(rd.v.ks)]
